@@ -94,7 +94,7 @@ def natResult (r : Option Nat × Buf) : TCR :=
 /-- integer `to_chars_positive(first, last, value, base)` -/
 def natToChars (b : Buf) (first : Nat) (v base : Nat) : Res TCR :=
   match natWrite (natDigits base v) b first with
-  | .ok r => .ok (natResultOrig r)
+  | .ok r => .ok (natResult r)
   | .oob i => .oob i
   | _ => .oob first
 
@@ -351,7 +351,7 @@ def scaledToCharsWith (pick : Info → Choice) (dsc : IntTy → Int → Int → 
     | .unreachable m => .unreachable m
     | _ => .diverges
 
-def scaledToChars := scaledToCharsWith chooseOrig descaleOrig
+def scaledToChars := scaledToCharsWith choose descale
 def scaledToCharsOrig := scaledToCharsWith chooseOrig descaleOrig
 
 /-! ## capacity of `scaled_integer` (`scaled_integer/to_chars_capacity.h`) -/
